@@ -89,7 +89,22 @@ def _observe(job):
     cb.select_copula = recorder
     try:
         try:
-            m = V.fit_vine(df, vtype, trunc)
+            past = V.past_table(rs, n, seed) if seed % 3 == 1 else None      # a third of the models have a past
+            if past is None:
+                m = V.fit_vine(df, vtype, trunc)
+            else:
+                # the same instance lived before: fitted to another table (not observed), sampled, then fitted to this one
+                from copulas.multivariate import VineCopula
+                m = VineCopula(vtype)
+                cb.select_copula = orig
+                m.fit(past, truncated=max(1, past.shape[1] - 1))
+                st_ = np.random.get_state()
+                m.sample(1)
+                np.random.set_state(st_)
+                cb.select_copula = recorder
+                calls.clear()
+                poison([(j, j) for j in range(1, n + 1)], 0.0)
+                m.fit(df, truncated=trunc)
         finally:
             cb.select_copula = orig
         struct, adm = V.structure(m.trees)
@@ -131,6 +146,9 @@ def _observe(job):
                 u = np.where(np.arange(n) % 2 == 0, 0.03, 0.97) + rs.uniform(-0.01, 0.01, size=n)
             elif q == 4:
                 u = rs.choice([0.002, 0.5, 0.998], size=n)
+            elif q == 2:        # inside the open cube but within 1e-7 of its faces
+                u = np.where(np.arange(n) == q % n, 1e-10, u)
+                u[(q + 1) % n] = 1 - 1e-12
             uu = np.array([u])
             with np.errstate(all='ignore'):
                 poison([(n, n), (1, n - 1), (1, max(1, len(m.trees)))], 0.0)
